@@ -17,11 +17,24 @@ GEOMS = ['page-edge', 'cache-alias', 'window-cut', 'far', 'top', 'magic', 'many'
 
 def plan(tier: str, seed: int) -> List[Dict[str, Any]]:
     shards, per = (16, 320) if tier == 'quick' else (64, 2500)
-    return [{'seed': seed, 'shard': i, 'cases': per, 'tier': tier, 'timeout_s': 900 if tier == 'quick' else 7200}
-            for i in range(shards)]
+    out = [{'seed': seed, 'shard': i, 'cases': per, 'tier': tier, 'timeout_s': 900 if tier == 'quick' else 7200}
+           for i in range(shards)]
+    n_corpus = 2 if tier == 'quick' else 16
+    for i in range(n_corpus):
+        out.append({'kind': 'corpus', 'seed': seed, 'shard': i, 'shards': n_corpus, 'tier': tier,
+                    'programs': 2 if tier == 'quick' else 30, 'timeout_s': 1500 if tier == 'quick' else 7200})
+    return out
+
+
+CORPUS_CONFIGS = [{'engine': 'native'}, {'engine': 'native', 'ring': 10}, {'engine': 'native', 'no_flat': True},
+                  {'engine': 'native', 'no_flat': True, 'ring': 3}, {'engine': 'native', 'flat_max_words': 1000},
+                  {'engine': 'native', 'flat_max_words': 16385, 'ring': 5}, {'engine': 'native', 'measure': True},
+                  {'engine': 'fast'}, {'engine': 'fast', 'ring': 10}, {'engine': 'featured', 'ring': 10}]
 
 
 def run_shard(spec: Dict[str, Any], journal: Any) -> Dict[str, Any]:
+    if spec.get('kind') == 'corpus':
+        return enginecmp.shard_corpus(spec, journal, PROPERTY, CORPUS_CONFIGS, check_memory=True)
     rng = rng_for(spec['seed'], PROPERTY, spec['shard'])
     counters: Dict[str, Any] = {}
     violations: List[Dict[str, Any]] = []
